@@ -28,6 +28,7 @@ type EvalCtx struct {
 	paramVals map[string]Val // explicit parameter bindings (callee contracts at call sites)
 	noLocals bool
 	onlyParams bool
+	inOld      bool // inside old(...): parameter names denote their values at entry
 	fnForTypes *ssa.Function
 	siteLoop *Loop // innermost loop around a site assertion (for $k only)
 }
@@ -198,6 +199,7 @@ func (e *Engine) eval(ctx *EvalCtx, x *Expr) (Val, error) {
 		if ctx.old != nil {
 			n.st = ctx.old
 		}
+		n.inOld = true
 		return e.eval(&n, x.Args[0])
 	case "ite":
 		c, err := e.evalBool(ctx, x.Args[0])
@@ -796,7 +798,7 @@ func (f *Frame) lookupName(ctx *EvalCtx, name string) (Val, bool) {
 		}
 		return Val{}, false
 	}
-	if ctx.onlyParams || ctx.at == nil {
+	if ctx.onlyParams || ctx.at == nil || ctx.inOld {
 		if v, ok := paramVal(); ok {
 			return v, true
 		}
@@ -935,8 +937,10 @@ func (e *Engine) evalSelect(ctx *EvalCtx, a Val, name string) (Val, error) {
 		return Val{}, fmt.Errorf("%s is not a field of %s", name, a.T)
 	}
 	cur := a
+	entryHeap := false
 	for _, i := range index {
 		if p, ok := cur.T.Underlying().(*types.Pointer); ok {
+			entryHeap = strings.HasPrefix(e.getHeapP(ctx.st, e.sortOf(p.Elem())), "HP0.")
 			pt, ok2 := e.ptrTerm(cur)
 			if !ok2 {
 				if l := cur.Loc; l != nil {
@@ -957,11 +961,17 @@ func (e *Engine) evalSelect(ctx *EvalCtx, a Val, name string) (Val, error) {
 	// values read from the heap in a specification carry the same typing facts as values loaded by the code
 	if !hasBound(cur.S) {
 		switch cur.T.Underlying().(type) {
-		case *types.Slice:
-			key := "specty:" + ctx.st.cond + ":" + cur.S
+		case *types.Slice, *types.Pointer, *types.Map, *types.Chan:
+			// (including: what the heap of a state holds was allocated before that state - not beyond its watermark)
+			wm := ctx.st.wm
+			if entryHeap {
+				// read from the heap as it was at entry: allocated before entry
+				wm = "wm0"
+			}
+			key := "specty:" + ctx.st.cond + ":" + wm + ":" + cur.S
 			if !e.sc.declared[key] && len(cur.S) < 400 {
 				e.sc.declared[key] = true
-				e.assume(ctx.st.cond, e.typingFact(cur.T, cur.S, ""))
+				e.assume(ctx.st.cond, e.typingFact(cur.T, cur.S, wm))
 			}
 		}
 	}
